@@ -51,7 +51,7 @@ def read_only_roots(prog):
     return roots
 
 
-def check(ctx):
+def _check_own(ctx):
     prog = ctx.prog
     io = io_effects(prog)
     deff = Effects(prog, lambda p, f, t: (), fp.dirty_label_stmt)
@@ -133,3 +133,11 @@ def _witness(prog, io, f, w):
         seen.add(nxt.id)
         cur = nxt
     return " -> ".join(short(x.id) for x in chain)
+
+
+def check(ctx):
+    _check_own(ctx)
+    from .engine import import_rules
+    # a read path that seeks past the end extends the file: the structural preconditions for staying inside the table
+    import_rules(ctx, "c04", {"scan-compensation", "layout-agreement"})
+    import_rules(ctx, "c07", {"stored-count-wins"})
